@@ -515,6 +515,11 @@ class Visitor(ast.NodeVisitor):
         if node.id in self._name_to_value:
             # The value of a variable may well be ``None``.
             result = self._name_to_value[node.id]
+
+            if result is PLACEHOLDER:
+                # The name refers to a variable of a comprehension (which may hide an argument of the same name).
+                # The placeholder is no value to be reported.
+                return PLACEHOLDER
         elif hasattr(builtins, node.id):
             result = getattr(builtins, node.id)
         else:
@@ -1022,18 +1027,27 @@ class Visitor(ast.NodeVisitor):
         return generator_expr_func(**self._name_to_value)
 
     def _visit_comprehension_parts(
-        self, parts: List[ast.expr], generators: List[ast.comprehension]
+        self,
+        parts: List[ast.expr],
+        generators: List[ast.comprehension],
+        outer_name_to_value: Dict[str, Any],
     ) -> None:
         """
         Visit the parts of a comprehension to re-compute the values which do not depend on its variables.
 
-        Python evaluates only the iterable of the first ``for`` unconditionally. All the other parts
-        (the element, the iterables of the further ``for``'s and the ``if``'s) are evaluated once per iteration,
-        possibly never, so their speculative re-computation here must not fail the message generation.
+        Python evaluates only the iterable of the first ``for`` unconditionally, and in the enclosing scope
+        (given as ``outer_name_to_value``), where the variables of the comprehension do not hide anything yet.
+        All the other parts (the element, the iterables of the further ``for``'s and the ``if``'s) are evaluated
+        once per iteration, possibly never, so their speculative re-computation here must not fail the message generation.
         """
         for i, generator in enumerate(generators):
             if i == 0:
-                self.visit(generator.iter)
+                inner_name_to_value = self._name_to_value
+                self._name_to_value = copy.copy(outer_name_to_value)
+                try:
+                    self.visit(generator.iter)
+                finally:
+                    self._name_to_value = inner_name_to_value
             else:
                 self._visit_without_failing(generator.iter)
 
@@ -1082,7 +1096,11 @@ class Visitor(ast.NodeVisitor):
         ):
             self._name_to_value[target_name] = PLACEHOLDER
 
-        self._visit_comprehension_parts(parts=[node.elt], generators=node.generators)
+        self._visit_comprehension_parts(
+            parts=[node.elt],
+            generators=node.generators,
+            outer_name_to_value=old_name_to_value,
+        )
 
         self._name_to_value = old_name_to_value
 
@@ -1103,7 +1121,11 @@ class Visitor(ast.NodeVisitor):
         ):
             self._name_to_value[target_name] = PLACEHOLDER
 
-        self._visit_comprehension_parts(parts=[node.elt], generators=node.generators)
+        self._visit_comprehension_parts(
+            parts=[node.elt],
+            generators=node.generators,
+            outer_name_to_value=old_name_to_value,
+        )
 
         self._name_to_value = old_name_to_value
 
@@ -1126,7 +1148,11 @@ class Visitor(ast.NodeVisitor):
         ):
             self._name_to_value[target_name] = PLACEHOLDER
 
-        self._visit_comprehension_parts(parts=[node.elt], generators=node.generators)
+        self._visit_comprehension_parts(
+            parts=[node.elt],
+            generators=node.generators,
+            outer_name_to_value=old_name_to_value,
+        )
 
         self._name_to_value = old_name_to_value
 
@@ -1149,7 +1175,11 @@ class Visitor(ast.NodeVisitor):
         ):
             self._name_to_value[target_name] = PLACEHOLDER
 
-        self._visit_comprehension_parts(parts=[node.key, node.value], generators=node.generators)
+        self._visit_comprehension_parts(
+            parts=[node.key, node.value],
+            generators=node.generators,
+            outer_name_to_value=old_name_to_value,
+        )
 
         self._name_to_value = old_name_to_value
 
